@@ -129,6 +129,30 @@ func (w *speller) kw(s string) {
 		}
 		s = string(b)
 	}
+	if w.st.lex() && w.st.coin(12) {
+		// a reserved word is the text its escapes decode to: one letter written
+		// as \xNN, \uNNNN, \u{N...} or - where that starts no escape - behind a backslash
+		i := w.st.R.IntN(len(s))
+		c := s[i]
+		if (c >= 'a' && c <= 'z') || (c >= 'A' && c <= 'Z') {
+			var e string
+			switch w.st.R.IntN(4) {
+			case 0:
+				e = fmt.Sprintf(`\x%02x`, c)
+			case 1:
+				e = fmt.Sprintf(`\u%04X`, c)
+			case 2:
+				e = fmt.Sprintf(`\u{%x}`, c)
+			default:
+				if strings.IndexByte("bfnrtvxuBFNRTVXU", c) < 0 {
+					e = `\` + string(c)
+				} else {
+					e = fmt.Sprintf(`\x%02X`, c)
+				}
+			}
+			s = s[:i] + e + s[i+1:]
+		}
+	}
 	w.sb.WriteString(s)
 }
 
